@@ -163,6 +163,55 @@ func checkC12(P *Prog, r *Result) {
 			})
 		})
 	}
+	// the same wrapper written as a procedure: W(&t) replaces t.Func by a closure over the Func t held, on every path
+	inPlace := false
+	if wrapper == nil {
+		ff := structField(R.Test, "Func")
+		for _, tm := range P.Funcs {
+			if tm.Name() != "Test" || tm.Parent() != nil || tm.Signature.Recv() == nil || !R.isKind(tm.Signature.Recv().Type()) {
+				continue
+			}
+			withHelpers(tm, 0, func(fn *ssa.Function) {
+				eachInstr(fn, func(_ *ssa.BasicBlock, _ int, in ssa.Instruction) {
+					c, ok := in.(*ssa.Call)
+					if !ok || callOf(c).static == nil || len(c.Call.Args) != 1 || !P.isPtrTo(c.Call.Args[0].Type(), R.Test) || !inModule(funcPkgPath(callOf(c).static)) {
+						return
+					}
+					w := callOf(c).static
+					if len(w.AnonFuncs) != 1 || len(w.Params) != 1 {
+						return
+					}
+					stores, onAll := 0, true
+					eachInstr(w, func(b *ssa.BasicBlock, _ int, in2 ssa.Instruction) {
+						st, ok := in2.(*ssa.Store)
+						if !ok {
+							return
+						}
+						sb, f := fieldVar(st.Addr)
+						if f == nil || !sameField(f, ff) {
+							return
+						}
+						mc, isMC := st.Val.(*ssa.MakeClosure)
+						if !isMC || mc.Fn != w.AnonFuncs[0] || cv(sb) != ssa.Value(w.Params[0]) {
+							onAll = false
+							return
+						}
+						stores++
+						for _, rb := range w.Blocks {
+							if len(rb.Instrs) > 0 {
+								if _, isRet := rb.Instrs[len(rb.Instrs)-1].(*ssa.Return); isRet && rb != b && !b.Dominates(rb) {
+									onAll = false
+								}
+							}
+						}
+					})
+					if stores == 1 && onAll && (wrapper == nil || wrapper == w) {
+						wrapper, inPlace = w, true
+					}
+				})
+			})
+		}
+	}
 	for _, k := range R.Kinds {
 		kn := k.Obj().Name()
 		var testM *ssa.Function
@@ -199,10 +248,36 @@ func checkC12(P *Prog, r *Result) {
 				if f == nil || !sameField(f, funcF) {
 					return
 				}
-				if c, ok := st.Val.(*ssa.Call); ok && wrapper != nil && callOf(c).static == wrapper {
+				if c, ok := st.Val.(*ssa.Call); ok && wrapper != nil && !inPlace && callOf(c).static == wrapper {
 					if _, f2 := loadOfField(cv(c.Call.Args[0])); f2 != nil && sameField(f2, funcF) {
 						wraps = true
 					}
+				}
+			})
+			if !inPlace {
+				return
+			}
+			// W(&t) with t the variable the stored Test is read from, every whole read of it after the call
+			eachInstr(hf, func(b *ssa.BasicBlock, idx int, in ssa.Instruction) {
+				c, ok := in.(*ssa.Call)
+				if !ok || callOf(c).static != wrapper {
+					return
+				}
+				al, isAl := cv(c.Call.Args[0]).(*ssa.Alloc)
+				if !isAl {
+					return
+				}
+				reads, after := 0, true
+				eachInstr(hf, func(b2 *ssa.BasicBlock, i2 int, in2 ssa.Instruction) {
+					if u, ok := in2.(*ssa.UnOp); ok && u.Op == token.MUL && u.X == ssa.Value(al) {
+						reads++
+						if !(b2 == b && i2 > idx || b2 != b && b.Dominates(b2)) {
+							after = false
+						}
+					}
+				})
+				if reads > 0 && after {
+					wraps = true
 				}
 			})
 		})
@@ -240,6 +315,11 @@ func checkC12(P *Prog, r *Result) {
 				}
 				chain = append(chain, cc.static.Name())
 				a0 = cv(c.Call.Args[0])
+			}
+			if inPlace {
+				if _, f := loadOfField(cv(ci.instr.Common().Value)); f == nil || !sameField(f, structField(R.Test, "Func")) {
+					return
+				}
 			}
 			if strings.Join(chain, ".") == "Interface.Elem.ValueOf" && a0 == ssa.Value(cl.Params[0]) && cv(ci.args()[1]) == ssa.Value(cl.Params[1]) {
 				okW = true
